@@ -8,7 +8,7 @@ cd "$WT" || exit 2
 mkdir -p "$OUT"
 LOG="$OUT/confirm.log"; : > "$LOG"
 echo "== demo WITH change" >> "$LOG"
-sh ./demo.sh >> "$LOG" 2>&1; WITH=$?
+bash ./demo.sh >> "$LOG" 2>&1; WITH=$?
 echo "exit=$WITH" >> "$LOG"
 echo "== test suite WITH change" >> "$LOG"
 (cd compiler && cargo test --workspace --offline 2>&1 | grep -E "^test result|FAILED|panicked" ) >> "$LOG" 2>&1
@@ -16,7 +16,7 @@ if grep -q "FAILED\|test result: FAILED" "$LOG"; then TESTS=1; else TESTS=0; fi
 echo "tests_failed=$TESTS" >> "$LOG"
 git stash push -q -- compiler
 echo "== demo WITHOUT change" >> "$LOG"
-sh ./demo.sh >> "$LOG" 2>&1; WITHOUT=$?
+bash ./demo.sh >> "$LOG" 2>&1; WITHOUT=$?
 echo "exit=$WITHOUT" >> "$LOG"
 git stash pop -q
 cp patch.diff "$OUT/patch.diff"
